@@ -85,6 +85,9 @@ pub fn payload(mode: Mode, len: usize, strict_class: bool) -> BoxedStrategy<(Vec
                 .prop_map(|v| (v, "byte_mode_indicator_nibbles")),
             1 => vec(prop_oneof![32u8..127, 0xC3u8..=0xC3, 0x80u8..0xC0], len).prop_map(|v| (v, "byte_textish")),
             1 => vec(b'a'..=b'z', len).prop_map(|v| (v, "byte_lowercase")),
+            // narrower classes: only stay as they are when the mode is forced (strict_class re-classes them)
+            1 => vec(b'0'..=b'9', len).prop_map(|v| (v, "byte_digits_only")),
+            1 => vec(0usize..45, len).prop_map(|v| (v.into_iter().map(|i| ALNUM_SET[i]).collect(), "byte_alnum_only")),
         ]
         .boxed(),
     };
